@@ -150,6 +150,8 @@ class Executor(ExprMixin, StmtMixin, LoopMixin):
         self.pending: list | None = None
         self.try_stack: list = []
         self.qstack: list = []
+        self._attr_src = None
+        self._last_attr = None
         self.qouter: list = []  # the states in which the enclosing quantifiers were opened (outermost first)
         self.qnames: list = []  # names bound by the enclosing quantifiers / comprehensions (for old())
         self.entry_state = None
@@ -298,6 +300,7 @@ class Executor(ExprMixin, StmtMixin, LoopMixin):
         ft = cs.fields[name]
         arr = self.field_array(st, cs.name, name)
         r = lift(recv)
+        self._attr_src = (recv, cs.name, name)
         # select(store(a, i, v), r): v when i is r; look through the store when i is a DIFFERENT object created by
         # `new_object` and r is a parameter or another new object (distinct by the allocation model)
         while z3.is_app(arr) and arr.decl().kind() == z3.Z3_OP_STORE:
@@ -349,8 +352,16 @@ class Executor(ExprMixin, StmtMixin, LoopMixin):
         st.ghost[key] = (v.term, len(st.pc))
         st.assume(f if cond is None else z3.Implies(cond, f))
 
-    def write_field(self, st, recv: Val, name: str, v: Val, node=None):
+    def write_field(self, st, recv: Val, name: str, v: Val, node=None, mutate=False):
         cs = self.class_of(recv.ty)
+        if not mutate:
+            # the field is RE-BOUND: locals that alias its old container keep that (old) object
+            for k_, lk in [(k_, lk) for k_, lk in st.ghost.items() if isinstance(k_, tuple) and k_[0] == "link" and lk[1] == cs.name and lk[2] == name]:
+                if z3.eq(lift(lk[0]), lift(recv)):
+                    st.env[k_[1]] = self.read_field(st, lk[0], name)
+                    del st.ghost[k_]
+                else:
+                    raise Unsupported(f"field {cs.name}.{name} is re-bound through another reference while the local '{k_[1]}' aliases its container", node)
         if v.ty is PYOBJ and name not in cs.fields:
             # python-level value (closure, class, heterogeneous constant): kept outside the SMT heap, which is
             # only possible when the receiver is a definite object (a constant, not an ite/select term)
